@@ -11,13 +11,14 @@
      fullrt/dht.go     NewFullRT (subscription, provider manager, wg.Add(2)), Close (cancel; wg.Wait; stores)
      records/providers_manager.go   NewProviderManager (go gcLoop), Close (cancel; <-closed; stopped := true)
      records/value_store.go         StartGC (gcMu, gcStarted), Close (cancel; <-closed)
-     rtrefresh/rt_refresh_manager.go  Start (refcount.Add(1); go loop), Refresh (refcount.Go), Close (cancel; refcount.Wait)
+     rtrefresh/rt_refresh_manager.go  Start / Refresh (refcountLk.RLock; if closed {..return}; refcount.Add(1); RUnlock; go ...),
+                            Close (cancel; refcountLk.Lock; closed = true; Unlock; refcount.Wait)
      provider/provider.go   New, Close (closeOnce; wgLk.Lock; close(done); wgLk.Unlock; cancel; pool.Close; wg.Wait;
                             approxPrefixLenRunning.Lock; cleanup LIFO), the `wgLk.RLock; if closed() {..return}; wg.Add; RUnlock` sites
      provider/internal/connectivity/connectivity.go  Start / TriggerCheck (mutex held from before `go` until the goroutine ends), Close
      provider/buffered/provider.go   New (go worker), Close (closeOnce; close(closed); queue.Close; Provider.Close; <-done)
      provider/dual/provider.go       New (keystore, LAN provider, WAN provider), Close (both providers, then cleanup)
-     provider/keystore/keystore.go, resettable_keystore.go   New* (go worker), Close (select on s.close / default: close(s.close); <-s.done; ...)
+     provider/keystore/keystore.go, resettable_keystore.go   New* (go worker), Close (closeOnce.Do: close(s.close); <-s.done; ...)
 
    Abstracted: what the goroutines compute; the Go scheduler (every interleaving of
    the atomic steps below is an event list); memory model (each step is atomic). *)
@@ -224,12 +225,17 @@ Definition desc_of (c : comp) : desc :=
   | CDht | CDual | CFullRT => {| d_once := OnceNone; d_guard := GuardCtor; d_wait := WaitWG |}
   | CProvMgr => {| d_once := OnceNone; d_guard := GuardCtor; d_wait := WaitChan |}
   | CValueStore => {| d_once := OnceNone; d_guard := GuardNone; d_wait := WaitChan |}     (* StartGC may be called at any time *)
-  | CRtRefresh => {| d_once := OnceNone; d_guard := GuardNone; d_wait := WaitWG |}        (* Start / Refresh register without a guard *)
+  | CRtRefresh => {| d_once := OnceNone; d_guard := GuardLockFlag; d_wait := WaitWG |}    (* Start / Refresh register under refcountLk while !closed *)
   | CProvider => {| d_once := OnceSync; d_guard := GuardLockFlag; d_wait := WaitWG |}
   | CBuffered => {| d_once := OnceSync; d_guard := GuardCtor; d_wait := WaitChan |}
   | CProvDual => {| d_once := OnceNone; d_guard := GuardCtor; d_wait := WaitChan |}       (* closes both providers (each OnceSync), then the keystore *)
-  | CKeystore | CResettable => {| d_once := OnceChanSelect; d_guard := GuardCtor; d_wait := WaitChan |}
+  | CKeystore | CResettable => {| d_once := OnceSync; d_guard := GuardCtor; d_wait := WaitChan |}   (* closeOnce.Do *)
   end.
+
+(* the protocols the keystores and the refresh manager used before they were repaired (the witnesses of
+   what was wrong with them are kept in Proofs/LifecycleProofs.v) *)
+Definition desc_keystore_select : desc := {| d_once := OnceChanSelect; d_guard := GuardCtor; d_wait := WaitChan |}.
+Definition desc_rtrefresh_unguarded : desc := {| d_once := OnceNone; d_guard := GuardNone; d_wait := WaitWG |}.
 
 (* state of one thread with respect to Close *)
 Inductive cst :=
@@ -430,7 +436,7 @@ Definition ctor_script (c : comp) : list cstep :=
         CStart (RSub "fullrt");
         CFailPt "provider manager" false [RSub "fullrt"];    (* cancel(); sub.Close() *)
         CStart (RG GPmGc);
-        CFailPt "dhtcfg.BootstrapPeers is nil (no BootstrapPeers option)" true [];   (* nil func call: panics *)
+        (* `if dhtcfg.BootstrapPeers != nil`: a missing BootstrapPeers option is no failure point any more *)
         CStart (RG GFrtCrawler); CStart (RG GFrtSubscriber) ]
   | CProvMgr => [ CFailPt "lru" false []; CFailPt "options" false []; CStart (RG GPmGc) ]
   | CValueStore => [ CStart (RG GVsGc) ]
@@ -445,9 +451,9 @@ Definition ctor_script (c : comp) : list cstep :=
   | CProvDual =>
       [ CFailPt "nil DHT / options" false [];
         CStart (RG GKsWorker);                                   (* only without WithKeystore *)
-        CFailPt "provider.New (LAN)" false [];                   (* `return nil, err` *)
+        CFailPt "provider.New (LAN)" false [RG GKsWorker];       (* closes the providers started so far (none), then cleanupFuncs *)
         CStart (RG GConnProbe); CStart (RG GProvRun);
-        CFailPt "provider.New (WAN)" false [];                   (* `return nil, err` *)
+        CFailPt "provider.New (WAN)" false (RG GKsWorker :: prov_running);   (* LAN provider Close, then cleanupFuncs *)
         CStart (RG GConnProbe); CStart (RG GProvRun) ]
   | CKeystore => [ CFailPt "options" false []; CStart (RG GKsWorker) ]
   | CResettable =>
